@@ -28,7 +28,8 @@ def cases(draw, max_n=40):
     pool = [gens.rounded(t0 + draw(gens.fl(0, base)), 12) for _ in range(max(1, (n + 1) // 2))]
     t = [pool[draw(st.integers(0, len(pool) - 1))] if draw(st.integers(0, 3)) == 0 else gens.rounded(t0 + draw(gens.fl(0, base)), 12)
          for _ in range(n)]
-    case = {"n": n, "t": t, "time_input": draw(st.sampled_from(["float", "float", "tcb", "utc"])),
+    case = {"n": n, "t": t, "time_input": draw(st.sampled_from(["float", "float", "tcb", "utc", "tdb", "tt", "tai"])),
+            "t_ref_scale": draw(st.sampled_from(["tcb", "tcb", "utc", "tdb", "tt"])),
             "rv_unit": draw(st.sampled_from(og.VEL_UNITS)), "err_unit": draw(st.sampled_from(og.VEL_UNITS)),
             "cov": draw(st.integers(0, 3)) == 0, "clean": draw(st.sampled_from([True, True, True, False])),
             "t_ref": draw(st.sampled_from(["default", "default", "false", "time"])),
@@ -100,14 +101,16 @@ def build(case):
         t_in, t_eff = t, t
     else:
         tt = Time(t, format="mjd", scale="tcb")
-        if case["time_input"] == "utc":
-            tt = tt.utc
+        if case["time_input"] != "tcb":
+            tt = getattr(tt, case["time_input"])     # the same instants, expressed on another time scale
         t_in, t_eff = tt, tt.tcb.mjd
     kw = {"clean": case["clean"]}
     if case["t_ref"] == "false":
         kw["t_ref"] = False
     elif case["t_ref"] == "time":
         kw["t_ref"] = Time(case["t_ref_val"], format="mjd", scale="tcb")
+        if case.get("t_ref_scale", "tcb") != "tcb":
+            kw["t_ref"] = getattr(kw["t_ref"], case["t_ref_scale"])
     data = RVData(t=t_in, rv=rv * ru, rv_err=err * (eu ** 2 if case["cov"] else eu), **kw)
     return data, dict(t=np.asarray(t_eff, dtype=float), tag=tag, sig=sig, err=err, bad=bad_rows, ru=ru, eu=eu, rv=rv)
 
